@@ -159,6 +159,18 @@ def run_unit(unit, twin=False, rlimit=None, threads=2, auto_fns=None, _depth=0, 
                     caller = _fn_at(g, sp['line_start'])
                     if o[0] == 'repo':
                         missing.setdefault((o[1], m.group(1)), set()).update(caller['props'] if caller else [])
+    # ... or a method of its own type that no template knows: `self.m(..)` is replaced by the method's body where that is the
+    # meaning of the call (gen._inlinable_method); otherwise the caller's body is out of reach (stubbed below)
+    for d in diags:
+        m = re.search(r'no method named `(\w+)` found for (?:mutable reference|reference|struct|enum) `(?:&\s*)?(?:mut\s+)?(\w+)', d.get('message', ''))
+        if m and d.get('level') == 'error':
+            for sp in d.get('spans', []):
+                if sp.get('is_primary') and 0 < sp['line_start'] <= len(g.origin):
+                    o = g.origin[sp['line_start'] - 1]
+                    caller = _fn_at(g, sp['line_start'])
+                    key = (o[1], f'method:{m.group(2)}:{m.group(1)}')
+                    if o[0] == 'repo' and key not in (auto_fns or {}):
+                        missing.setdefault(key, set()).update(caller['props'] if caller else [])
     if missing and _depth < 3:
         merged = dict(auto_fns or {})
         for k, v in missing.items():
